@@ -161,6 +161,7 @@ def _check_goal(it, goal, label, inputs, hyps=None):
 def run_path(c, decisions, contracts, world, cfg) -> PathResult:
     pr = PathResult()
     it = Interp(world, decisions, contracts, solver_timeout_ms=cfg.get("timeout_ms", 10000), verifying=c.key)
+    it.variant_label = cfg.get("variant_label")
     if c.timeout_ms:
         it.solver_timeout_ms = c.timeout_ms
     t0 = time.time()
@@ -172,15 +173,20 @@ def run_path(c, decisions, contracts, world, cfg) -> PathResult:
         ptypes = dict(c.params)
         if cfg.get("variant"):
             ptypes.update(cfg["variant"])
+        from .types import Computed
+        gtypes = dict(c.ghosts)
+        if cfg.get("variant"):
+            gtypes.update({k: v for k, v in cfg["variant"].items() if k in gtypes})
+        for name, _ in c.ghosts:
+            v = make_value(it, gtypes[name], name)
+            env.set(name, v)
+            inputs[name] = v
         for name, _ in c.params:
-            v = make_value(it, ptypes[name], name)
+            t = ptypes[name]
+            v = t.fn(it, env) if isinstance(t, Computed) else make_value(it, t, name)
             env.set(name, v)
             inputs[name] = v
             args.append(v)
-        for name, gt in c.ghosts:
-            v = make_value(it, gt, name)
-            env.set(name, v)
-            inputs[name] = v
         if c.setup is not None:
             c.setup(it, env)
         clauses.eval_lets(it, c.lets, env)
